@@ -6,7 +6,10 @@ Real side : pulser.register.{_coordinates,traps,register_layout,mappable_reg,wei
             base_register,special_layouts} of /repo.
 
 A *case* is one coordinate set plus optional sections (permutation, representation variant,
-a different set, define_register, look-ups, mappable register, detuning maps).  Every case is
+a different set, define_register, a register constructed directly with layout=/trap_ids=,
+look-ups, mappable register, detuning maps) and an optional *history*: the caller edits the
+array/list it passed in, or edits in place the arrays the accessors handed out, before the
+sections run — a layout / weight map must keep describing the coordinates it was given.  Every case is
 run on the model and on the real objects (correspondence) and the property is re-stated
 directly over the real objects (monitor).  Coordinates go to the model as integers in
 micro-units: `mu(x) = np.round(x, 6) * 1e6`; the rounding is monitored.
@@ -1387,7 +1390,10 @@ def check(tier: str, seed: int) -> int:
             trusted_base=TRUSTED_BASE, theorems=thms, axioms=axioms,
             evaluations=evaluations, distinct_nontrivial=nontrivial,
             traces_validated_against_impl=len(distinct),
-            rule="cases drawn by harness/props/C19.py gen_case (9 coordinate styles x optional sections) + corpus; "
+            rule="cases drawn by harness/props/C19.py gen_case (9 coordinate styles x optional sections, incl. registers "
+                 "constructed directly with layout=/trap_ids= at offsets around the precision and inside numpy's "
+                 "relative tolerance, and histories in which the caller edits its input or the arrays it was handed "
+                 "before every clause is re-checked) + corpus; "
                  "evaluations = model requests answered and compared with the real objects; distinct = distinct "
                  "canonical case JSON; non-trivial = layout with >= 2 traps built and a register successfully "
                  "defined from it on both sides",
